@@ -30,13 +30,17 @@ PULL_LOCATIONS = Contract(
     props=[],
 )
 
+# the name of a test is never rewritten during a traversal (readiness and pick predicates depend on it)
+NAMES_KEPT = ("forall(Ref('Params'), lambda p: ('name' in p) == old('name' in p) and implies('name' in p, p['name'] == old(p['name'])))")
+
 TRAVERSE_TERMINAL = Contract(
     target=f"{GRAPH}::TestGraph.traverse_terminal_node",
     name="TestGraph.traverse_terminal_node[summary]",
     params={"self": Ref("TestGraph"), "object_name": STR, "worker": Ref("TestWorker"), "params": (Ref("Params"), "nullable")},
     raises={"AssertionError": None, "RuntimeError": None, "ValueError": None, "ParamNotFound": None, "KeyError": None},
     ensures=[("markers_kept", "forall(Ref('TestNode'), lambda n: implies(allocated(n), n.started_worker == old(n.started_worker) "
-                              "and n.finished_worker == old(n.finished_worker)))")],
+                              "and n.finished_worker == old(n.finished_worker)))"),
+             ("names_kept", NAMES_KEPT)],
     result_kind=BOOL,
     frame=["TestNode.results", "TestNode.prefix", "Params.p_has", "Params.p_val", "JobResultSet.tests", "JobResult.j_status",
            "JobResult.j_time", "JobResult.tid", "TestID.name", "TestID.uid", "Result.r_name", "Result.r_status",
@@ -100,6 +104,7 @@ TRAVERSE_NODE = Contract(
         ("marks_finished", f"implies(not {OCC}, {N}.finished_worker == worker and {N}.started_worker is None)"),
         ("other_markers_kept", f"forall(Ref('TestNode'), lambda n: implies(n != {N} and allocated(n), "
                                f"n.started_worker == old(n.started_worker) and n.finished_worker == old(n.finished_worker)))"),
+        ("names_kept", NAMES_KEPT),
     ],
     frame=["TestNode.started_worker", "TestNode.finished_worker", "TestNode.results", "TestNode.prefix", "Params.p_has",
            "Params.p_val", "JobResultSet.tests", "JobResult.j_status", "JobResult.j_time", "JobResult.tid", "TestID.name",
